@@ -41,6 +41,20 @@ def _oplists(sg, nested):
     return [[ids.get(id(op), -1) for op in l] for l in nested]
 
 
+def _one_clause(sg, site, off, clause):
+    """Separate the D14 witness (a coordinate that is negative by less than 1e-12 before the reduction
+    x - floor(x)) from any other way of returning a coordinate equal to 1.0."""
+    if clause != "coordinate-equals-1.0":
+        return clause
+    import numpy
+    site = numpy.asarray(site, dtype=float)
+    for op in sg.symop_list:
+        raw = op(site + off) - off
+        if numpy.any((raw < 0.0) & (raw > -1e-12)):
+            return "coordinate-equals-1.0-from-tiny-negative"
+    return clause
+
+
 def run_case(sg, ops, case, want_generator=True):
     """Run the real code on one case and judge it with the exact oracle.  Returns a result dict."""
     from diffpy.structure.symmetryutilities import expandPosition, GeneratorSite
@@ -60,7 +74,7 @@ def run_case(sg, ops, case, want_generator=True):
     if exp["judged"]:
         res["judged"] += 1
         for clause, msg in co.judge(exp, res["impl"]["pos"], res["impl"]["ops"], res["impl"]["mult"]):
-            res["bad"].append((clause, "expandPosition", msg))
+            res["bad"].append((_one_clause(sg, x, off, clause), "expandPosition", msg))
     else:
         res["not_judged"] += 1
         res["why_not"] = exp["why_not"]
@@ -85,13 +99,13 @@ def run_case(sg, ops, case, want_generator=True):
                                        (max(abs(float(a - b)) for a, b in zip(xs, snapped)), [float(c) for c in snapped], list(map(float, gs.xyz)))))
                     return res
                 for clause, msg in co.judge(gexp, [list(p) for p in gs.eqxyz], gops, gs.multiplicity):
-                    res["bad"].append((clause, "GeneratorSite", msg))
+                    res["bad"].append((_one_clause(sg, gs.xyz, off, clause), "GeneratorSite", msg))
                 inv = sorted(_oplists(sg, [gs.invariants])[0])
                 if inv != sorted(gexp["stab"]):
                     res["bad"].append(("invariants", "GeneratorSite", "invariants %r, exact site symmetry %r" % (inv[:16], sorted(gexp["stab"])[:16])))
                 if max(abs(float(a) - float(b)) for a, b in zip(gs.xyz, snapped)) > co.TOL:
                     res["bad"].append(("snap", "GeneratorSite", "xyz %r, special position nearest the input %r" % (list(gs.xyz), [float(c) for c in snapped])))
-                res["gen"] = {"mult": int(gs.multiplicity), "eq": [[float(c) for c in p] for p in gs.eqxyz]}
+                res["gen"] = {"mult": int(gs.multiplicity), "xyz": [float(c) for c in gs.xyz]}
                 res["gexp"] = gexp
             except Exception as e:  # noqa
                 res["bad"].append(("exception", "GeneratorSite", "GeneratorSite raised %s: %s" % (type(e).__name__, e)))
@@ -119,7 +133,7 @@ def run_asym_unit(sg, ops, results):
         for r, m, ep in zip(rs, eau.multiplicity, eau.expandedpos):
             n += 1
             for clause, msg in co.judge(r["gexp"], [list(p) for p in ep], None, m):
-                bad.append((r["case"], (clause, "ExpandAsymmetricUnit", msg)))
+                bad.append((r["case"], (_one_clause(sg, r["gen"]["xyz"], off, clause), "ExpandAsymmetricUnit", msg)))
     return bad, n
 
 
@@ -133,7 +147,7 @@ def build_cases(si, ops, rng, tier):
         chosen = keys[:3]
         gen_variants = [("exact",), ("offset+shift",)]
         # one exact-type variant, one inside, one outside per chosen stratum
-        special_variants = lambda j: [rng.choice(("exact", "shift", "offset", "offset+shift")), "inside", "outside"]  # noqa
+        special_variants = lambda j: [rng.choice(("exact", "shift", "offset", "offset+shift")), rng.choice(("inside", "inside", "inside+offset")), "outside"]  # noqa
         nsites = 1
     else:
         chosen = keys
